@@ -142,8 +142,8 @@ def fault_lists(prep, faults):
     out = [[0]]
     for i in range(len(prep.ops) + 1):
         out.append([1, i])
-    for c in range(1, prep.n_susp + 1):
-        out.append([2, c])
+    for c in range(0, prep.n_susp):
+        out.append([2, c])  # replayed as c, run as suspension point c + 1
     if faults.draw(4) == 0 or len(out) <= 4:
         return out
     # three scenarios in four: the fault-free execution and three sampled crash points only, so that
